@@ -140,14 +140,48 @@ package s2
 // ---------------------------------------------------------------- EdgeQuery: options are inputs, never outputs
 
 // MaxResults must be at least 1 (documented requirement of the options)
-//@ spec func vcEQ(e *EdgeQuery) bool = e != nil && e.opts != nil && e.opts.maxResults >= 1
+//@ spec func vcEQ(e *EdgeQuery) bool = e != nil && e.opts != nil && e.opts.maxResults >= 1 && e.index != nil
 
-//@ func (e *EdgeQuery) findEdgesInternal(target distanceTarget, opts *queryOptions)
-//@   assumed "the search itself (float distances, queue): outside the subset; it installs opts and rewrites the per-call scratch fields only"
-//@   requires e != nil && opts != nil
-//@   modifies e.target, e.opts, e.testedEdges, e.distanceLimit, e.results, e.useConservativeCellDistance, e.avoidDuplicates, e.indexNumEdges, e.indexNumEdgesLimit, e.indexCovering, e.indexCells, e.iter, e.initialCells, e.maxDistanceCovering
-//@   ensures e.opts == opts
+//@ func (e *EdgeQuery) findEdgesBruteForce()
+//@   assumed "the brute-force scan (float distances through the target interface): it only appends to the results of this call"
+//@   requires e != nil
+//@   modifies e.results, e.distanceLimit
+//@   ensures [limit] old(e.distanceLimit) != nil ==> e.distanceLimit != nil
+//@   ensures [results] vcArr(e.results) == old(vcArr(e.results)) || vcFreshSlice(e.results)
 //@   ensures forall k int :: 0 <= k && k < len(e.results) ==> e.results[k].distance != nil
+
+//@ func (e *EdgeQuery) findEdgesOptimized()
+//@   assumed "the optimized search (queue, covering, float distances): it only appends to the results of this call and rewrites its own scratch"
+//@   requires e != nil
+//@   modifies e.results, e.distanceLimit, e.indexCovering, e.indexCells, e.iter, e.initialCells, e.maxDistanceCovering, e.testedEdges{*}
+//@   ensures [limit] old(e.distanceLimit) != nil ==> e.distanceLimit != nil
+//@   ensures [results] vcArr(e.results) == old(vcArr(e.results)) || vcFreshSlice(e.results)
+//@   ensures forall k int :: 0 <= k && k < len(e.results) ==> e.results[k].distance != nil
+
+//@ func (e *EdgeQuery) addResult(r EdgeQueryResult)
+//@   assumed "appends one result and may tighten the distance limit (float)"
+//@   requires e != nil
+//@   modifies e.results, e.distanceLimit
+//@   ensures [limit] old(e.distanceLimit) != nil ==> e.distanceLimit != nil
+//@   ensures [results] vcArr(e.results) == old(vcArr(e.results)) || vcFreshSlice(e.results)
+//@   ensures (forall k int :: 0 <= k && k < old(len(e.results)) ==> old(e.results)[k].distance != nil) && r.distance != nil ==> (forall k int :: 0 <= k && k < len(e.results) ==> e.results[k].distance != nil)
+
+//@ func (s *ShapeIndex) NumEdgesUpTo(limit int) int
+//@   assumed "read-only count of edges over the shapes of the index"
+//@   requires s != nil
+
+// every call starts from fresh per-call scratch state: the result slice and the tested-edge set are allocated by this call
+// on every path, including the zero-distance-limit early exits (answers depend on this call only)
+//@ func (e *EdgeQuery) findEdgesInternal(target distanceTarget, opts *queryOptions)
+//@   ifacenonnil
+//@   requires e != nil && opts != nil && target != nil && e.index != nil
+//@   modifies e.target, e.opts, e.testedEdges, e.distanceLimit, e.results, e.useConservativeCellDistance, e.avoidDuplicates, e.indexNumEdges, e.indexNumEdgesLimit, e.indexCovering, e.indexCells, e.iter, e.initialCells, e.maxDistanceCovering
+//@   noframe
+//@   ensures [opts] e.opts == opts
+//@   ensures [fresh-results] vcFreshSlice(e.results)
+//@   ensures [distances] forall k int :: 0 <= k && k < len(e.results) ==> e.results[k].distance != nil
+//@   ensures [fresh-tested-set] e.testedEdges != nil && !vcSame(e.testedEdges, old(e.testedEdges))
+//@   loop 1: invariant [scratch] vcFreshSlice(e.results) && e.distanceLimit != nil && e.opts == opts && e.testedEdges != nil && !vcSame(e.testedEdges, old(e.testedEdges)) && e.target == target && (forall k int :: 0 <= k && k < len(e.results) ==> e.results[k].distance != nil)
 
 //@ func sortAndUniqueResults(results []EdgeQueryResult) []EdgeQueryResult
 //@   assumed "verified under C08"
@@ -161,37 +195,37 @@ package s2
 //@   ensures result.distance != nil
 
 //@ func (e *EdgeQuery) FindEdges(target distanceTarget) []EdgeQueryResult
-//@   requires vcEQ(e)
+//@   requires vcEQ(e) && target != nil
 //@   replay in_e.index = NewShapeIndex(); in_e.testedEdges = map[ShapeEdgeID]uint32{}; in_e.queue = newQueryQueue(); in_target = NewMinDistanceToPointTarget(PointFromCoords(1, 0, 0)); if in_e.opts.maxResults > 1000 { in_e.opts.maxResults = 5 }
 //@   noframe
 //@   ensures [opts-unchanged] e.opts == old(e.opts) && vcSame(*e.opts, old(*e.opts))
 
 //@ func (e *EdgeQuery) Distance(target distanceTarget) s1.ChordAngle
-//@   requires vcEQ(e)
+//@   requires vcEQ(e) && target != nil
 //@   replay in_e.index = NewShapeIndex(); in_e.testedEdges = map[ShapeEdgeID]uint32{}; in_e.queue = newQueryQueue(); in_target = NewMinDistanceToPointTarget(PointFromCoords(1, 0, 0)); if in_e.opts.maxResults > 1000 { in_e.opts.maxResults = 5 }
 //@   noframe
 //@   ensures [opts-unchanged] e.opts == old(e.opts) && vcSame(*e.opts, old(*e.opts))
 
 //@ func (e *EdgeQuery) IsDistanceLess(target distanceTarget, limit s1.ChordAngle) bool
-//@   requires vcEQ(e)
+//@   requires vcEQ(e) && target != nil
 //@   replay in_e.index = NewShapeIndex(); in_e.testedEdges = map[ShapeEdgeID]uint32{}; in_e.queue = newQueryQueue(); in_target = NewMinDistanceToPointTarget(PointFromCoords(1, 0, 0)); if in_e.opts.maxResults > 1000 { in_e.opts.maxResults = 5 }
 //@   noframe
 //@   ensures [opts-unchanged] e.opts == old(e.opts) && vcSame(*e.opts, old(*e.opts))
 
 //@ func (e *EdgeQuery) IsDistanceGreater(target distanceTarget, limit s1.ChordAngle) bool
-//@   requires vcEQ(e)
+//@   requires vcEQ(e) && target != nil
 //@   replay in_e.index = NewShapeIndex(); in_e.testedEdges = map[ShapeEdgeID]uint32{}; in_e.queue = newQueryQueue(); in_target = NewMinDistanceToPointTarget(PointFromCoords(1, 0, 0)); if in_e.opts.maxResults > 1000 { in_e.opts.maxResults = 5 }
 //@   noframe
 //@   ensures [opts-unchanged] e.opts == old(e.opts) && vcSame(*e.opts, old(*e.opts))
 
 //@ func (e *EdgeQuery) IsConservativeDistanceLessOrEqual(target distanceTarget, limit s1.ChordAngle) bool
-//@   requires vcEQ(e)
+//@   requires vcEQ(e) && target != nil
 //@   replay in_e.index = NewShapeIndex(); in_e.testedEdges = map[ShapeEdgeID]uint32{}; in_e.queue = newQueryQueue(); in_target = NewMinDistanceToPointTarget(PointFromCoords(1, 0, 0)); if in_e.opts.maxResults > 1000 { in_e.opts.maxResults = 5 }
 //@   noframe
 //@   ensures [opts-unchanged] e.opts == old(e.opts) && vcSame(*e.opts, old(*e.opts))
 
 //@ func (e *EdgeQuery) IsConservativeDistanceGreaterOrEqual(target distanceTarget, limit s1.ChordAngle) bool
-//@   requires vcEQ(e)
+//@   requires vcEQ(e) && target != nil
 //@   replay in_e.index = NewShapeIndex(); in_e.testedEdges = map[ShapeEdgeID]uint32{}; in_e.queue = newQueryQueue(); in_target = NewMinDistanceToPointTarget(PointFromCoords(1, 0, 0)); if in_e.opts.maxResults > 1000 { in_e.opts.maxResults = 5 }
 //@   noframe
 //@   ensures [opts-unchanged] e.opts == old(e.opts) && vcSame(*e.opts, old(*e.opts))
